@@ -304,29 +304,66 @@ def cv_equal(a, b, t):
 
 
 def mutate_in_place(w, r_seed, t, v):
-    """Deterministic in-place mutation of a decoded implementation value
-    (top-level container types only). Returns True if mutated."""
+    """Deterministic in-place mutation of a decoded implementation value: the first mutable
+    container found (top level, or nested below tuples / variants / sequence elements /
+    mapping values) gets an element added or removed. Returns True if something was mutated."""
     n, subs = t
     if n == "sequence" and isinstance(v, list):
+        if r_seed % 4 == 3 and v and _nested(w, r_seed, subs[0], v[0]):
+            return True
         if v and r_seed % 2:
             v.pop()
         else:
             v.append(to_impl(w, subs[0], default_value(subs[0])))
         return True
     if n == "set" and isinstance(v, set):
-        x = to_impl(w, subs[0], default_value(subs[0]))
+        x = to_impl(w, subs[0], default_value(subs[0]), True, True)
         if x in v:
             v.discard(x)
         else:
             v.add(x)
         return True
     if n == "mapping" and isinstance(v, dict):
-        k = to_impl(w, subs[0], default_value(subs[0]))
+        if r_seed % 4 == 3 and v:
+            # pick the key by its CANONICAL form (repr of a Variant holds its address)
+            k0 = sorted(v, key=lambda kk: R.key(from_impl(w, subs[0], kk)))[0]
+            if _nested(w, r_seed, subs[1], v[k0]):
+                return True
+        k = to_impl(w, subs[0], default_value(subs[0]), True, True)
         if k in v:
             del v[k]
         else:
             v[k] = to_impl(w, subs[1], default_value(subs[1]))
         return True
+    return _nested(w, r_seed, t, v)
+
+
+def _nested(w, r_seed, t, v):
+    n, subs = t
+    if n == "tuple" and isinstance(v, tuple):
+        for x, st in zip(v, subs):
+            if mutate_in_place(w, r_seed, st, x):
+                return True
+        return False
+    if n == "variant" and hasattr(v, "val"):
+        return mutate_in_place(w, r_seed, subs[v.index], v.val)
+    if n == "sequence" and isinstance(v, list):
+        return mutate_in_place(w, r_seed, t, v)
+    if n == "set" and isinstance(v, set):
+        return mutate_in_place(w, r_seed, t, v)
+    if n == "mapping" and isinstance(v, dict):
+        return mutate_in_place(w, r_seed, t, v)
+    return False
+
+
+def has_mutable(t, hashable=False):
+    """Does a value of this type contain a mutable Python container reachable without
+    passing through a hashable position?"""
+    n, subs = t
+    if n in ("sequence", "set", "mapping"):
+        return not hashable
+    if n in ("tuple", "variant"):
+        return any(has_mutable(s, hashable) for s in subs)
     return False
 
 
